@@ -105,6 +105,10 @@ def rule_no_new_rejections(ck: Check, rule: str, prefixes: Sequence[str], what: 
         n += 1
         got = rejection_sites(ck, q)
         new = [a for a in got if a not in want]
+        # a reworded message is not a new refusal: per exception class, only MORE distinct raise statements than recorded count
+        cls_of = lambda a: a.split(":")[0] if not a.startswith("->") else a       # noqa
+        new = [a for a in new if a.startswith("->")
+               or len([g for g in got if cls_of(g) == cls_of(a)]) > len([w_ for w_ in want if cls_of(w_) == cls_of(a)])]
         construct = "%s has no new way to refuse its input" % short(q)
         if new:
             ck.violated(rule, construct, "%s — new: %s" % (what, "; ".join(x[:120] for x in new[:4])), ck.repo.functions[q].loc)
